@@ -19,20 +19,19 @@ def save_parameters(
     :param parameters: list of parameters
     :type parameters: list(Parameter)
     :param bool safely: Create a temporary file if True
+    :param bool overwrite: Replace file_name if it already exists (always done
+        atomically when safely is True)
     """
-    if overwrite or (not safely or not os.path.lexists(file_name)):
-        # for var_name in self.optimizer.state_dict():
-        #     print(var_name, "\t", self.optimizer.state_dict()[var_name])
-        # torch.save(self.optimizer.state_dict(), 'checkpoint.json')
+    if not safely:
         with open(file_name, 'w') as fp:
             json.dump(parameters, fp, cls=ParameterEncoder, indent=2)
     else:
-        # torch.save(self.optimizer.state_dict(), 'checkpoint-new.json')
+        # write to a temporary file then atomically replace file_name so that
+        # file_name is never truncated, even if it is interrupted or if
+        # overwrite is requested
         with open(file_name + '.new', 'w') as fp:
             json.dump(parameters, fp, cls=ParameterEncoder, indent=2)
-        os.rename(file_name, file_name + '.old')
-        os.rename(file_name + '.new', file_name)
-        os.remove(file_name + '.old')
+        os.replace(file_name + '.new', file_name)
 
 
 def pack_tensor(parameters: List[Parameter], tensor: torch.Tensor) -> None:
